@@ -77,9 +77,14 @@ def reference_placement(sides, items, start_formatted=True):
     return placed, too_big, dropped, skipped, cur
 
 
+def shown(b):
+    """the 8+3 name bytes as the tools show them: control characters are replaced by 'x' (INVALID_CHAR of catalog.py)"""
+    return bytes(0x78 if c < 0x20 else c for c in b).decode("latin1")
+
+
 def decoded_key(f):
     """(name.ext stripped, kind, flag, content) of a decoded file"""
-    return (f[1].decode("latin1").rstrip() + "." + f[2].decode("latin1").rstrip(), f[3], f[4], f[8])
+    return (shown(f[1]).rstrip() + "." + shown(f[2]).rstrip(), f[3], f[4], f[8])
 
 
 def run_step(ctx, res, stream, sc, mode, verbose, items, pre_raw, clauses, case_base, tool_made=True):
@@ -431,7 +436,14 @@ def gen_aside(rng, nfiles=None, weird=True, full_catalog=False):
                 names.add((nm, ex))
                 break
         content = T.content_for(rng, size) if size < 20000 else bytes([rng.getrandbits(8)]) * size
-        files.append({"slot": slots.pop(), "name": (nm + " " * 8)[:8].encode(), "ext": (ex + "   ")[:3].encode(),
+        nb, eb = bytearray((nm + " " * 8)[:8].encode()), bytearray((ex + "   ")[:3].encode())
+        if weird and rng.random() < 0.2:
+            # a control character in one of the eleven name bytes (another system may have left it): shown and extracted as 'x'
+            pos = rng.choice([0, 1, 7, 8, 9, 10, 10, rng.randrange(11)])
+            (nb if pos < 8 else eb)[pos if pos < 8 else pos - 8] = rng.choice([1, 7, 13, 27, 31])
+            if (shown(bytes(nb)).rstrip(), shown(bytes(eb)).rstrip()) in {(shown(x["name"]).rstrip(), shown(x["ext"]).rstrip()) for x in files}:
+                nb, eb = bytearray((nm + " " * 8)[:8].encode()), bytearray((ex + "   ")[:3].encode())
+        files.append({"slot": slots.pop(), "name": bytes(nb), "ext": bytes(eb),
                       "kind": rng.choice([0, 1, 2, 3]), "flag": rng.choice([0, 0xFF]), "chain": chain, "lastSectors": ls, "lastBytes": lb,
                       "content": content})
     deleted = []
